@@ -28,6 +28,8 @@ class Gen:
         self.tracked = []   # (name, key) of tracking variables assigned so far
         self.meta = []
         self.nprint = 0
+        self.nappend = 0
+        self.rewrites = False
         self.adjacent_refs = False
 
     # ---- helpers
@@ -496,6 +498,55 @@ class Gen:
             items.append(L.t_text(f" ({self.nprint})"))
         return L.print_node(items, quals=quals, uid=f"print{self.nprint}")
 
+    # ---- replace / append / collect: the csvpath rewrites or projects the line (spec/Eval.tla, st.line / st.headers / st.limit)
+    def rewrite_component(self):
+        r = self.r
+        self.rewrites = True
+        strict = self.fs.cols({"num", "numE", "txt", "txtE"}, True)     # columns every non-blank row reaches
+        k = r.choice(["replace", "replace", "append", "append", "collect"])
+        if not strict:
+            k = "append"
+
+        def target(i):
+            return L.term(self.fs.names[i]) if (self.fs.named and r.random() < 0.5) else L.term(i)
+
+        val = r.choice([self.text, self.num, self.anyval])(2)
+        cond = self.boolean(1)
+        if cond["k"] == "term":
+            cond = self.href_any()
+        if k == "replace":
+            f = L.fn("replace", target(r.choice(strict)), val)
+        elif k == "append":
+            self.nappend += 1
+            args = [L.term(r.choice(["extra", "hb", "new one", "ha"])), val]
+            if r.random() < 0.4:
+                args.append(L.fn(r.choice(["yes", "no"])))
+            f = L.fn("append", *args)
+            f["name_q"] = f"append{self.nappend}"
+        else:
+            cols = [r.choice(strict) for _ in range(r.choice([1, 2, 3]))]
+            f = L.fn("collect", *[target(i) for i in cols])
+        if r.random() < 0.3:
+            return L.when(cond, f)
+        return f
+
+    def rewrite_reader(self):
+        """components that read the rewritten line without demanding a type of its cells"""
+        r = self.r
+        k = r.choice(["hdr", "hdr", "assign", "end", "nline", "nhdr", "name"])
+        name = self.fresh("rw")
+        if k == "hdr":
+            return self.href_any()
+        if k == "assign":
+            return L.assign(L.var(name), self.href_any())
+        if k == "end":
+            return L.assign(L.var(name), L.fn("end", *([L.term(1)] if r.random() < 0.4 else [])))
+        if k == "nline":
+            return L.assign(L.var(name), L.fn("count_headers_in_line"))
+        if k == "nhdr":
+            return L.assign(L.var(name), L.fn("count_headers"))
+        return L.assign(L.var(name), L.hdr(r.choice(["extra", "hb", "new one"])))
+
     # ---- one top-level component
     def component(self):
         r = self.r
@@ -562,6 +613,18 @@ class Gen:
             if r.random() < 0.5:
                 self.meta.append(L.meta_field("owner", r.choice(["team", "me too"])))
         comps = [self.component() for _ in range(n)]
+        if "rewrite" in self.groups and not self.used_onmatch:
+            # replace()/append()/collect() come after the typed components (a replaced cell need not keep its column's type) and
+            # are followed by readers that take any value; no look-ahead may run them early
+            self.used_onmatch = True
+            block = []
+            for _ in range(r.choice([1, 1, 2, 3])):
+                block.append(self.rewrite_component())
+                # once a cell may have been replaced, the values and conditions of later rewrites do not read headers
+                self.no_headers = True
+            self.no_headers = False
+            block += [self.rewrite_reader() for _ in range(r.choice([0, 1, 2, 3]))]
+            comps = comps + block
         if "control" in self.groups and r.random() < 0.35 and not self.used_onmatch:
             # a 'last() ->' component comes last (C01's quantifier): the implementation freezes the
             # path again after its action, which disables every later component of that line.
@@ -576,7 +639,7 @@ class Gen:
             comps.append(L.when(L.fn("last"), act))
         first = self.fs.first_data_line()
         sc = self.scan(first)
-        prog = {"scan": sc, "comps": comps, "meta": list(self.meta), "_adjacent_refs": self.adjacent_refs}
+        prog = {"scan": sc, "comps": comps, "meta": list(self.meta), "_adjacent_refs": self.adjacent_refs, "_rewrites": self.rewrites}
         prog["initVars"] = L.init_vars(prog)
         return prog
 
@@ -621,6 +684,13 @@ def make_case(rng, tid, *, groups=("core",), AND=None, max_rows=8, modes=False):
         AND = rng.random() < 0.7
     g = Gen(rng, fs, AND=AND, groups=groups)
     prog = g.program()
+    if rng.random() < 0.15:
+        # a standalone csvpath: the cross-path signals are plain stop / skip / advance / fail on the csvpath that executes them
+        ren = {"stop": "stop_all", "skip": "skip_all", "advance": "advance_all", "fail": "fail_all"}
+        for c in prog["comps"]:
+            for n in L.walk(c):
+                if n["k"] == "fn" and n["name"] in ren and rng.random() < 0.7:
+                    n["name"] = ren[n["name"]]
     cfg = {"AND": AND, "noMatches": False, "keepUnmatched": False, "collecting": True, "noRun": False, "nexts": 0}
     if modes:
         cfg["noMatches"] = rng.random() < 0.5
